@@ -189,14 +189,19 @@ func (t *Transcoder) registerMethod(handler http.Handler, methodDesc protoreflec
 		return fmt.Errorf("duplicate registration: method %s has already been configured", methodDesc.FullName())
 	}
 	requestType, err := opts.resolver.FindMessageByName(methodDesc.Input().FullName())
-	if errors.Is(err, protoregistry.NotFound) {
+	if errors.Is(err, protoregistry.NotFound) ||
+		(err == nil && requestType.Descriptor() != methodDesc.Input()) {
+		// Unknown to the resolver, or known under the same name but built from other
+		// descriptors than the schema's: field descriptors taken from the schema (path
+		// variables, body fields) could not be used with such a message.
 		requestType = dynamicpb.NewMessageType(methodDesc.Input())
 	} else if err != nil {
 		return fmt.Errorf("request type %s, for method %s, could not be resolved: %w",
 			methodDesc.Input().FullName(), methodDesc.FullName(), err)
 	}
 	responseType, err := opts.resolver.FindMessageByName(methodDesc.Output().FullName())
-	if errors.Is(err, protoregistry.NotFound) {
+	if errors.Is(err, protoregistry.NotFound) ||
+		(err == nil && responseType.Descriptor() != methodDesc.Output()) {
 		responseType = dynamicpb.NewMessageType(methodDesc.Output())
 	} else if err != nil {
 		return fmt.Errorf("response type %s, for method %s, could not be resolved: %w",
